@@ -219,6 +219,21 @@ CLAIMED = {
         "note": TRUSTED,
         "technique": "static analysis: MIR panic-surface enumeration restricted to the scanner, cast-range check, Option/Result consumption flow, must-pass / dominance rules on the scanner's state variables",
     },
+    "C05": {
+        "text": "Static structure rules over the syntax tree types, the printer and the parser.  Printer: every field of every struct and "
+                "the payload of every variant of the syntax types contained in LedgerEntry is read by a Display impl reachable from the "
+                "entry printer (following calls, format arguments and to_string), variant payloads on their own arm.  Parser: every "
+                "variant of every syntax enum is constructed in okane_core::parse (or is the declared Default); every struct literal the "
+                "parser builds takes each field from parsed input - a field left to a ::new()/Default base or to a constant is a "
+                "violation unless tabled and behind its guard; Lot's three fields are all assigned.  Writer/reader agreement: for each "
+                "multi-line text (top comment, account / commodity comment and note) the printer's prefix ends in a blank exactly when "
+                "the parser's prefix consumes the following blanks.  End of file: every parser that references winnow's bare "
+                "line_ending pairs it with eof in the same alternation, or is tabled as lookahead-only with every reference under "
+                "has_peek.  Round-trip equality of values and idempotence as such are not decided (value level).",
+        "design_ref": "DESIGN.md §4 C05",
+        "note": TRUSTED,
+        "technique": "static analysis: field / variant coverage over the ADT table and MIR place projections, who-may-construct and who-may-reference rules, constant comparison between printer and parser prefixes",
+    },
 }
 
 _WIP = "check not built yet in this session (design: DESIGN.md §4); not claimed until it is"
